@@ -112,6 +112,9 @@ def ref_info(ranges, offers, spec, match):
     return info
 
 
+DS_Accept = [None]
+
+
 def header_of(ranges):
     return ",".join(r if q is None else f"{r};q={q}" for r, q in ranges)
 
@@ -128,9 +131,21 @@ def check_generic(rec, http, cls, fam, ranges, offers, spec, match):
             rec.observe("malformed_q_items")
         elif qval(q) == 0:
             rec.observe("q0_items")
+    if cls is not DS_Accept[0]:
+        # the same header text negotiated first through the plain Accept class: the classes' answers are independent
+        plain = http.parse_accept_header(hdr, DS_Accept[0])
+        plain.best_match(offers)
+        for o in offers:
+            plain.quality(o)
     acc = http.parse_accept_header(hdr, cls)
     got = acc.best_match(offers)
     rec.observe("chosen_none" if got is None else "chosen_offer")
+    # default= is returned only when nothing is acceptable
+    for dflt in (offers[0], offers[-1], "zz-default"):
+        gd = acc.best_match(offers, default=dflt)
+        if gd != (got if got is not None else dflt):
+            rec.violation(f"C17/{fam}:default-argument-changes-the-choice", f"{hdr!r} offers {offers!r}: best_match(default={dflt!r}) = {gd!r}, without default {got!r}", case, monitor="evaluator")
+            return
     info = ref_info(ranges, offers, spec, match)
     cand = [(o, s, Q) for o, s, Q in info if Q is not None and max(Q) > 0]
     if not cand:
@@ -266,9 +281,16 @@ def check_lang(rec, http, DS, ranges, offers):
     rec.observe("family:language")
     rec.nontrivial(("lang", hdr, tuple(offers)))
     case = {"family": "language", "header": hdr, "offers": list(offers)}
+    plain = http.parse_accept_header(hdr, DS.Accept)
+    plain.best_match(offers)
     acc = http.parse_accept_header(hdr, DS.LanguageAccept)
     got = acc.best_match(offers)
     rec.observe("chosen_none" if got is None else "chosen_offer")
+    for dflt in (offers[0], offers[-1], "zz-default"):
+        gd = acc.best_match(offers, default=dflt)
+        if gd != (got if got is not None else dflt):
+            rec.violation("C17/language:default-argument-changes-the-choice", f"{hdr!r} offers {offers!r}: best_match(default={dflt!r}) = {gd!r}, without default {got!r}", case, monitor="evaluator")
+            return
     if lang_unambiguous(ranges, offers):
         exp = ref_lang(ranges, offers)
         if got != exp:
@@ -290,6 +312,7 @@ def run(shard, rec, rng):
                         "Accept.quality": opt(lambda: DS.Accept.quality), "Accept.__init__": opt(lambda: DS.Accept.__init__), "MIMEAccept._value_matches": opt(lambda: DS.MIMEAccept._value_matches),
                         "LanguageAccept.best_match": opt(lambda: DS.LanguageAccept.best_match), "LanguageAccept._value_matches": opt(lambda: DS.LanguageAccept._value_matches),
                         "CharsetAccept._value_matches": opt(lambda: DS.CharsetAccept._value_matches)})
+    DS_Accept[0] = DS.Accept
     cfg = TIERS[shard["_tier"]]
     CH = ["utf-8", "utf8", "latin1", "iso-8859-1", "*", "ascii", "us-ascii", "x-unknown"]
     ENC = ["gzip", "br", "identity", "*", "deflate", "GZIP"]
@@ -330,6 +353,7 @@ def replay(case, rec):
             ranges.append((r, q))
         else:
             ranges.append((item, None))
+    DS_Accept[0] = DS.Accept
     fam = case["family"]
     if fam == "language":
         check_lang(rec, http, DS, ranges, case["offers"])
